@@ -2,7 +2,8 @@
 """Regenerates /verif/MANIFEST.json from checks.json (single source of truth)."""
 import json, os, subprocess
 ROOT = os.path.dirname(os.path.dirname(os.path.abspath(__file__)))
-conf = json.load(open(os.path.join(ROOT, "checks.json")))
+import glob
+conf = {os.path.basename(f)[:-5]: json.load(open(f)) for f in sorted(glob.glob(os.path.join(ROOT, "checks.d", "C*.json")))}
 props = [json.loads(l) for l in open(os.path.join(ROOT, "properties.jsonl"))]
 hooks_commits = []
 try:
